@@ -19,32 +19,31 @@ namespace DepLogic
 namespace C02
 open M
 
-variable (env : Env) (he : EnvTotal env) (hF : FromSpecOk env) (hP : PyMergeOk env)
 
-theorem and_sound (fuel : Nat) (a b : M) (ha : GAll (Good env) a) (hb : GAll (Good env) b) :
+theorem and_sound (env : Env) (he : EnvTotal env) (hF : FromSpecOk env) (hP : PyMergeOk env) (fuel : Nat) (a b : M) (ha : GAll (Good env) a) (hb : GAll (Good env) b) :
     GAll (Good env) (M.and fuel a b) ∧ sem env (M.and fuel a b) = (sem env a && sem env b) :=
   (sound_all (singleSound env he hF hP) fuel).and_ a b ha hb
 
-theorem or_sound (fuel : Nat) (a b : M) (ha : GAll (Good env) a) (hb : GAll (Good env) b) :
+theorem or_sound (env : Env) (he : EnvTotal env) (hF : FromSpecOk env) (hP : PyMergeOk env) (fuel : Nat) (a b : M) (ha : GAll (Good env) a) (hb : GAll (Good env) b) :
     GAll (Good env) (M.or fuel a b) ∧ sem env (M.or fuel a b) = (sem env a || sem env b) :=
   (sound_all (singleSound env he hF hP) fuel).or_ a b ha hb
 
 /-- a result that reports `is_empty()` is satisfied by no environment -/
-theorem isEmpty_sound (fuel : Nat) (a b : M) (ha : GAll (Good env) a) (hb : GAll (Good env) b)
+theorem isEmpty_sound (env : Env) (he : EnvTotal env) (hF : FromSpecOk env) (hP : PyMergeOk env) (fuel : Nat) (a b : M) (ha : GAll (Good env) a) (hb : GAll (Good env) b)
     (h : (M.and fuel a b).isEmpty = true) : (sem env a && sem env b) = false := by
   rw [← (and_sound env he hF hP fuel a b ha hb).2]
   cases hm : M.and fuel a b <;> simp [hm, isEmpty] at h
   simp [sem]
 
 /-- a result that reports `is_any()` is satisfied by every environment -/
-theorem isAny_sound (fuel : Nat) (a b : M) (ha : GAll (Good env) a) (hb : GAll (Good env) b)
+theorem isAny_sound (env : Env) (he : EnvTotal env) (hF : FromSpecOk env) (hP : PyMergeOk env) (fuel : Nat) (a b : M) (ha : GAll (Good env) a) (hb : GAll (Good env) b)
     (h : (M.or fuel a b).isAny = true) : (sem env a || sem env b) = true := by
   rw [← (or_sound env he hF hP fuel a b ha hb).2]
   cases hm : M.or fuel a b <;> simp [hm, isAny] at h
   simp [sem]
 
 /-- CNF/DNF rewriting and the `of` normalisations never change which environments are selected -/
-theorem rewriting_sound (fuel : Nat) (m : M) (hm : GAll (Good env) m) :
+theorem rewriting_sound (env : Env) (he : EnvTotal env) (hF : FromSpecOk env) (hP : PyMergeOk env) (fuel : Nat) (m : M) (hm : GAll (Good env) m) :
     sem env (cnf fuel m) = sem env m ∧ sem env (dnf fuel m) = sem env m ∧
     (∀ ms, GAllL (Good env) ms → sem env (multiOf fuel ms) = ms.all (sem env)) ∧
     (∀ ms, GAllL (Good env) ms → sem env (unionOfList fuel ms) = ms.any (sem env)) :=
